@@ -27,9 +27,10 @@ ASSUMPTIONS = [a for a in B.ASSUMPTIONS] + [
     'single-worker pool (prefetch depth of the task feeder, delivery delay); '
     'tasks execute in submission order',
 ]
-OUTSIDE = ['independence from PYTHONHASHSEED and process ids: needs separate '
-           'interpreter processes (string hashing cannot be made symbolic '
-           'inside one); not decided by this check',
+OUTSIDE = ['independence from PYTHONHASHSEED: only sampled (partition '
+           'hashseed runs separate interpreters under a handful of seeds - '
+           'string hashing cannot be made symbolic inside one); process ids: '
+           'not examined',
            'more than S scheduling choices']
 RULE = B.RULE
 
@@ -37,7 +38,7 @@ CONFIGS = [
     ('hierarchical', 'a', 'core'), ('hierarchical', 'b', 'mix'),
     ('hierarchical', 'b', 'elim'), ('hierarchical', 'c', 'erase'),
     ('hybrid', 'a', 'core'), ('hybrid', 'd', 'mix'), ('ddmin', 'c', 'erase'),
-    ('ddmin', 'b', 'mix'),
+    ('ddmin', 'b', 'mix'), ('hierarchical', 'd', 'fresh'),
 ]
 
 
@@ -51,6 +52,9 @@ def two_runs(vec, st, sc, ms, oracle, V, S, norm_fresh=True):
     outs = []
     read = set()
     for quiet in (True, False):
+        # both runs start like a fresh process: node ids count from zero
+        import ddsmt.nodes as _N
+        _N.Node._Node__ID_COUNTER.value = 0
         d = Decider(S, replay=list(vec), reserved=reserved)
         if oracle == 'req':
             # the oracle draws its bits sequentially first; the scheduler
@@ -108,8 +112,95 @@ def make_run(st, sc, ms, oracle, tier):
     return run
 
 
+SEED_SCRIPT = r'''
+import sys, json
+sys.path.insert(0, %(verif)r); sys.path.insert(0, %(repo)r)
+sys.argv = ['ddsmt', 'in.smt2', 'out.smt2', 'cmd']
+from vlib.stubs.strat import Decider
+from harness import strat_common as SC
+from harness import c15 as P
+out = {}
+from ddsmt import mutators as _M
+SC.MUTSETS['_all'] = [c for c, _ in P.all_mutators()]
+SC.MUTSETS['_theory'] = [c for g, (mod, reg) in _M.get_all_mutators().items()
+                         if g not in ('core', 'smtlib') for c in reg]
+for st, sc in %(cfgs)r:
+    d = Decider(0, replay=%(bits)r, reserved=8)
+    env = SC.setup(d, st, 1, 8, sc, '_theory' if sc == 'g' else '_all',
+                   oracle='hash0', maxwrites=60, norm_fresh=True)
+    try:
+        try:
+            final = SC.run_strategy(env, st)
+            out[st + '_' + sc] = [env.writes, SC.tokens(final)]
+        except SC.Runaway:
+            out[st + '_' + sc] = 'runaway'
+    finally:
+        env.restore()
+print('RESULT' + json.dumps(out))
+'''
+
+
+def run_hashseed(tier):
+    """Auxiliary (separate interpreters, concrete): the same runs with all
+    mutators enabled under different PYTHONHASHSEED values go through the
+    same accepted inputs.  String hashing cannot be made symbolic inside one
+    interpreter, so this part is sampling over seeds."""
+    import json
+    import os
+    import subprocess
+    import sys
+    import time
+    t0 = time.time()
+    verif = os.path.dirname(os.path.dirname(os.path.abspath(__file__)))
+    repo = os.environ.get('VERIF_REPO', '/repo')
+    cfgs = [('hierarchical', 'a'), ('hierarchical', 'b'), ('hybrid', 'd'),
+            ('ddmin', 'c'), ('hierarchical', 'e'), ('hierarchical', 'g'),
+            ('hybrid', 'g')]
+    seeds = [0, 1, 2, 3, 7, 11] if tier == 'quick' else list(range(24))
+    results = {}
+    bad = None
+    n = 0
+    for bits in ([1] * 8, [1, 0, 1, 1, 0, 1, 1, 0], [0, 1, 1, 0, 1, 1, 0, 1],
+                 [1, 1, 0, 1, 1, 0, 0, 1]):
+        ref = None
+        for seed in seeds:
+            env = dict(os.environ)
+            env['PYTHONHASHSEED'] = str(seed)
+            code = SEED_SCRIPT % {'verif': verif, 'repo': repo, 'cfgs': cfgs,
+                                  'bits': bits}
+            p = subprocess.run([sys.executable, '-c', code], env=env,
+                               stdout=subprocess.PIPE, stderr=subprocess.PIPE,
+                               text=True, timeout=300)
+            line = [l for l in p.stdout.splitlines() if l.startswith('RESULT')]
+            if not line:
+                return {'status': 'UNKNOWN', 'cex': None, 'paths': n,
+                        'paths_ok': n, 'samples': [], 'solver_checks': 0,
+                        'solver_seconds': 0.0,
+                        'engine_error': 'child failed: ' + p.stderr[-500:],
+                        'wall_s': round(time.time() - t0, 2)}
+            res = json.loads(line[0][6:])
+            n += len(res)
+            if ref is None:
+                ref = res
+            elif res != ref and bad is None:
+                k = [k for k in res if res[k] != ref[k]][0]
+                bad = ({'seed': seed, 'bits': bits, 'config': k},
+                       f'PYTHONHASHSEED={seed} vs {seeds[0]}: run {k} goes '
+                       f'through different accepted inputs: {res[k]!r} vs '
+                       f'{ref[k]!r}')
+    return {'status': 'VIOLATED' if bad else 'CONFIRMED',
+            'cex': bad[0] if bad else None,
+            'exc': {'type': 'Violation', 'msg': bad[1][:1500]} if bad else None,
+            'paths': n, 'paths_ok': n,
+            'samples': [{'seeds': seeds, 'configs': cfgs}],
+            'solver_checks': 0, 'solver_seconds': 0.0,
+            'wall_s': round(time.time() - t0, 2),
+            'note': 'separate interpreters, sampled seeds (auxiliary)'}
+
+
 def partitions(tier):
-    parts = []
+    parts = [{'name': 'hashseed', 'kind': 'native',
+              'run': (lambda: run_hashseed(tier)), 'budget_s': 600}]
     for (st, sc, ms) in CONFIGS:
         for oracle in ('hash0', 'hash1', 'req'):
             parts.append({'name': f'{st}_{sc}_{ms}_{oracle}',
@@ -124,6 +215,9 @@ def partitions(tier):
 
 def replay(part, cex):
     import os
+    if part == 'hashseed':
+        r = run_hashseed(os.environ.get('VERIF_TIER_REPLAY', 'quick'))
+        return r['exc']['msg'] if r.get('exc') else None
     raw = part.startswith('raw_')
     if raw:
         part = part[4:]
